@@ -10,6 +10,10 @@
 // and read back with the real native parser and evaluator. The oracle is the
 // round-trip relation of the property statement; no reference model of the
 // escaping is needed because the expected result is the input itself.
+//
+// Two further dimensions: size (nesting depth and token length, enumerated
+// over one-dimensional ranges that cross the power-of-two boundaries) and
+// two-step label sequences (construct with l1, SetLabels(l2), read back l2).
 package main
 
 import (
@@ -595,12 +599,15 @@ func main() {
 			"Each value goes through TokensForValue+ParseExpression and through SetAttributeValue (new, replaced, followed by another attribute, inside a block)+File.Bytes()+ParseConfig; oracle: no error diagnostics, convert(evaluated, type(v)) RawEquals v. " +
 			"traversals: every absolute (roots a, foo-bar, é) and relative step sequence of <= 2 (quick) / <= 3 (thorough) steps over 9 attribute names, 29 string keys and 7 number keys, all sequences of 3 (quick) / 4 (thorough) steps over a reduced 18-step alphabet, plus every alphabet string and every table number as a key; oracle: parses; AbsTraversalForExpr and ParseTraversalAbs give the same steps (not demanded for negative number keys); evaluation selects the same member as applying the original traversal to a constructed scope; same through SetAttributeTraversal. " +
 			"labels: every alphabet string as a single label, all pairs of strings of length <= 1, triples over a small set, block types blk/foo-bar/é, through NewBlock, AppendNewBlock, SetLabels; oracle: Block.Labels() of the constructed block, hclsyntax Block.Labels and hclwrite.ParseConfig(...).Labels() equal the (NFC-normalised) supplied strings. " +
+			"sizes (one-dimensional ranges enumerated exhaustively across the power-of-two boundaries): nesting depth 1..70 (thorough 1..140 and 255..257, 511..513) of the wrappers [x], {k = x}, list, map, set (depth <= 8), [x, true], {a = x, b = true} and their alternations, each alone (the attribute path writes it followed by further attributes and a block), as non-last / last attribute of an object, non-last / last tuple element and as map values; token lengths {1..16} U {2^k-1, 2^k, 2^k+1 : k = 5..14 (thorough 16)} for strings made of a, é, LF, ${ and the quote in every string position including map keys and attribute names, for the numbers 10^(n-1), -10^(n-1), 10^-(n-2), for block labels, block type names, attribute names, traversal root names, attribute steps, string keys and number keys; same oracle. " +
+			"label replacements: every ordered pair (l1, l2) of labels from {all strings of <= 4 (thorough 5) characters over {$,{,a} and over {%,{,a}, all of <= 3 over {$,%,{,a}, all of <= 1 rune of the escape alphabet} and every ordered pair of label lists of length <= 2 over 9 labels: NewBlock/AppendNewBlock with l1 (optionally reading Labels() in between), then SetLabels(l2); oracle: the written bytes parse (hclsyntax and hclwrite) with labels l2 and Block.Labels() is l2; a failure that l2 shows on its own in one step keeps the one-step class, any other gets a c11.label.replace.* class. " +
 			"Non-trivial = read back successfully; distinct = distinct generated text / read-back value.",
 		Assumptions: []string{
 			"go-cty (value construction, NFC normalisation, convert.Convert, RawEquals, number parsing) is trusted",
 			"hcl.Traversal.TraverseAbs and expression evaluation are used as the semantic relation for traversals (both sides run on the same constructed scope)",
 			"numbers carried at fewer than 512 bits are compared at their own precision (spec.md: equal 'to the precision associated with the number'); numbers needing more than 512 mantissa bits are Unspecified (spec.md allows limited precision)",
 			"strings that are not well-formed UTF-8 and infinite numbers are outside the property's domain and are not enumerated",
+			"sets are nested to depth 8 only and lists/maps to depth 140 only: go-cty needs time exponential resp. cubic in the depth to construct/convert them",
 		},
 		Gen:    gen,
 		Judge:  judge,
@@ -613,7 +620,7 @@ func main() {
 			}
 			return m
 		},
-		QuickBudget:    4 * time.Minute,
+		QuickBudget:    10 * time.Minute,
 		ThoroughBudget: 40 * time.Minute,
 	})
 }
